@@ -251,13 +251,38 @@ def oracle_tau2(c):
     if abs(o["state_lp"][0] - o["state_lp"][1]) > 10 * tol * max(1.0, abs(o["state_lp"][1])):
         return f"returned model state is not the updated state at the draw: log_prob {o['state_lp']}"
     if "_draws" in o or "ks" in o:
+        # reference law: the inverse-gamma fitted to the real log_prob; when float32 rounding of a large
+        # log_prob makes that fit coarse, the closed form a + rank/2, b + beta'K beta/2 - after checking
+        # that it agrees with the fit to the fit's own precision
+        if ftol + 1e-6 * abs(A) > 1e-3:
+            a_g = c["a"] + 0.5 * exact_rank(c["K"])
+            b_g = c["b"] + 0.5 * float(quad(c["beta"], c["K"]))
+            if abs(a_g - A) > ftol + 1e-6 * abs(A) or abs(b_g - B) > ftol + 1e-6 * abs(B):
+                return (f"the model's full conditional of tau2 fitted to log_prob is IG({A:.6g}, {B:.6g}), not "
+                        f"IG(a + rank/2, b + beta'K beta/2) = IG({a_g!r}, {b_g!r})")
+            A, B = a_g, b_g
         if "ks" not in o:
-            from scipy import stats
+            from scipy import stats, special
             d = o.pop("_draws")
             if not (d > 0).all():
                 return "a draw is not positive"
-            o["ks"] = float(stats.kstest(d, stats.invgamma(A, scale=B).cdf).statistic) if A > 0 and B > 0 else 1.0
-        if o["ks"] > 0.045:     # n = 4000: P(D > 0.045) < 1e-6 under the fitted law
+            # Gamma variates of a tiny concentration underflow to 0 and the draw overflows to inf (true values
+            # beyond the float range): such draws count as "larger than every float" (censored sample) and the
+            # Kolmogorov distance is taken over the finite range
+            import numpy as np
+            fin = d[np.isfinite(d)]
+            o["n_overflow"] = int(len(d) - len(fin))
+            n = len(d)
+            if A > 0 and B > 0:
+                F = special.gammaincc(A, B / np.concatenate([fin, [1.7e308]]))     # IG distribution function Q(A, B/t)
+                i = np.arange(1, len(fin) + 1)
+                dist = max(np.max(np.abs(i / n - F[:-1]), initial=0.0), np.max(np.abs((i - 1) / n - F[:-1]), initial=0.0),
+                           abs(len(fin) / n - F[-1]))
+                o["ks"] = float(dist)
+            else:
+                o["ks"] = 1.0
+            o["ks_ref"] = [A, B]
+        if o["ks"] > 0.045:     # n = 4000: P(D > 0.045) < 1e-6 under the reference law
             return (f"{KS_N} unpatched draws do not follow the model's full conditional IG({A:.6g}, {B:.6g}): "
                     f"Kolmogorov distance {o['ks']:.4f}")
     return None
@@ -513,6 +538,8 @@ def gen_tau2(rnd, idx, kt=None, bt=None, f32=None):
         beta = [dy(rnd, -3, 3, 4) for _ in range(p)]
     n = rnd.randint(3, 6)
     fam = rnd.choice(["normal", "normal", "poisson"])
+    if bt == "large":
+        fam = "normal"      # (exp of a large predictor makes the Poisson log_prob astronomically large)
     c = {"kind": "tau2", "ktype": kt, "btype": bt, "K": K, "beta": beta,
          "a": rnd.choice([0.5, 1.0, 2.0, 3.5, 2.0 ** -10, 10.0, 0.01]),
          "b": rnd.choice([0.5, 1.0, 2.0, 8.0, 2.0 ** -10, 0.25, 0.01]),
